@@ -9,7 +9,7 @@ def sig(rec, clauses):
 
 def run(c):
     th = c.thorough()
-    AMAX, AMAXCG, KMAX = (3, 4, 2) if th else (2, 3, 2)
+    AMAX, AMAXCG, KMAX = 2, 3, 2      # larger entries overflow TLC's 32-bit rationals in the second step
     c.rule = ("model: KrylovProgModel - the transcribed amgcl recurrences (CG, BiCGStab both sides, Richardson, GMRES both sides "
               "and restarts) against the exact-rational definitions of KrylovRef on every non-singular integer 2x2 system with "
               "|a| <= %d (SPD |a| <= %d for CG), k <= %d%s; code: (a) the same systems through the real solvers with maxiter = k, "
@@ -17,7 +17,8 @@ def run(c):
               "dense systems n <= 60 (real/complex, symmetric/non-symmetric, identity/dense preconditioner, both sides, restarts), "
               "every k <= 14, (c) measured optimality / orthogonality / termination; a case is non-trivial when the solver "
               "iterated (k >= 1); distinct by input (system or seeded id, method, side, restart, k)"
-              % (AMAX, AMAXCG, KMAX, ", plus 3x3 systems with |a| <= 1, k <= 3" if th else ""))
+              % (AMAX, AMAXCG, KMAX, ", two right-hand sides, zero and non-zero guess, three preconditioners, 9 method variants, "
+                                       "plus 3x3 systems with |a| <= 1, k <= 3 for CG and Richardson" if th else ""))
     c.mechanism = {"program iterate = definition (KrylovProgModel: ProgMatchesRef, TerminatesAtN, CarriedResidual, GmresMonotone)": "M",
                    "real solver iterate = rational definition on the enumerated 2x2 systems": "M+V (exact rationals; reconstruction error <= 1e-10)",
                    "real solver iterate = long-double reference, CG optimality / Galerkin orthogonality, GMRES-family residual "
@@ -31,7 +32,7 @@ def run(c):
                      "TLC, CommunityModules Json, g++, Eigen (dense QR/LU/SVD in long double) are trusted"]
 
     # ---------------------------------------------------------------- model
-    consts = {"AMax": AMAX, "AMaxCG": AMAXCG, "KMax": KMAX, "Wide": "TRUE" if th else "FALSE"}
+    consts = {"AMax": AMAX, "AMaxCG": AMAXCG, "AMaxBs": AMAX, "KMax": KMAX, "Wide": "TRUE" if th else "FALSE"}
     if th:
         consts["Methods"] = ('{"cg", "bicgstab.left", "bicgstab.right", "richardson", "richardson.half", '
                              '"gmres.left.K", "gmres.right.1", "gmres.left.1", "gmres.right.K"}')
